@@ -41,7 +41,21 @@ func (c *Ctx) pseudoRootHelper() *types.Func {
 
 func (c *Ctx) loaderFactory(fam *expFamily) *types.Func {
 	return c.roleFunc(func(sig *types.Signature) bool {
-		return sig.Results().Len() == 1 && isNamed(sig.Results().At(0).Type(), c.Types, fam.loader.Obj().Name())
+		if sig.Results().Len() != 1 || !isNamed(sig.Results().At(0).Type(), c.Types, fam.loader.Obj().Name()) {
+			return false
+		}
+		// (a helper that merely wraps the factory - loaderForBase(basePath) - is not the factory: the factory is
+		// given the options and the cache)
+		opts, cache := false, false
+		for i := 0; i < sig.Params().Len(); i++ {
+			if isNamed(sig.Params().At(i).Type(), c.Types, "ExpandOptions") {
+				opts = true
+			}
+			if isNamed(sig.Params().At(i).Type(), c.Types, "ResolutionCache") {
+				cache = true
+			}
+		}
+		return opts && cache
 	})
 }
 
@@ -62,6 +76,43 @@ func ruleEntryWiring(c *Ctx) {
 	if cloner == nil || pseudo == nil || factory == nil || cacheDef == nil {
 		c.undecided(rule, "helpers", token.NoPos, "options cloner / pseudo-root helper / loader factory / cache defaulter not found by role")
 		return
+	}
+	// decided on the effect normal form of every exported entry point (helpers inlined down to the role functions);
+	// the syntactic form below is only used when some entry point is outside the fragment the normaliser supports
+	if nb := c.funcObj("normalizeBase"); nb != nil {
+		roles := &entryRoles{fam: fam, cloner: cloner, pseudo: pseudo, factory: factory, cacheDef: cacheDef, nb: nb}
+		type entryRes struct {
+			f     *types.Func
+			facts *entryFacts
+		}
+		var all []entryRes
+		supported := true
+		for _, f := range c.entryPoints() {
+			facts, unsup := c.entryFactsBySim(roles, f)
+			if unsup != "" {
+				supported = false
+				break
+			}
+			all = append(all, entryRes{f, facts})
+		}
+		if supported {
+			for _, er := range all {
+				if !er.facts.hasFactory {
+					continue
+				}
+				fd := c.decl(er.f)
+				fn := c.funcName(fd)
+				c.saw(fn)
+				c.ob(rule, fn+":fresh-context", fd.Pos(), er.facts.fresh == "", er.facts.fresh)
+				c.ob(rule, fn+":options-cloned", fd.Pos(), er.facts.options == "", er.facts.options)
+				c.ob(rule, fn+":base-is-options-base", fd.Pos(), er.facts.base == "", er.facts.base)
+				if er.facts.hasPseudo {
+					c.ob(rule, fn+":root-in-loader-cache", fd.Pos(), er.facts.rootCache == "", er.facts.rootCache)
+					c.ob(rule, fn+":same-root", fd.Pos(), er.facts.sameRoot == "", er.facts.sameRoot)
+				}
+			}
+			return
+		}
 	}
 	isCallTo := func(e ast.Expr, f *types.Func) *ast.CallExpr {
 		call, ok := unparen(e).(*ast.CallExpr)
@@ -349,6 +400,16 @@ func ruleOptsImmutable(c *Ctx) {
 	cfd := c.decl(cloner)
 	c.saw(c.funcName(cfd))
 	p := c.paramObj(cfd, 0)
+	var simFacts *clonerFacts
+	if nb := c.funcObj("normalizeBase"); nb != nil {
+		simFacts, _ = c.clonerFactsBySim(cloner, nb)
+	}
+	if simFacts != nil {
+		// decided on the effect normal form of the cloner (a method or helper doing the copy is inlined)
+		c.ob(rule, c.funcName(cfd)+":no-write-through-param", cfd.Pos(), simFacts.noWrite == "", simFacts.noWrite)
+		c.ob(rule, c.funcName(cfd)+":copies-by-value", cfd.Pos(), simFacts.byValue == "", simFacts.byValue)
+		c.ob(rule, c.funcName(cfd)+":returns-fresh", cfd.Pos(), simFacts.fresh == "", simFacts.fresh)
+	}
 	writes := 0
 	ast.Inspect(cfd.Body, func(n ast.Node) bool {
 		if as, ok := n.(*ast.AssignStmt); ok {
@@ -360,7 +421,9 @@ func ruleOptsImmutable(c *Ctx) {
 		}
 		return true
 	})
-	c.ob(rule, c.funcName(cfd)+":no-write-through-param", cfd.Pos(), writes == 0, "the options cloner writes through the caller's pointer")
+	if simFacts == nil {
+		c.ob(rule, c.funcName(cfd)+":no-write-through-param", cfd.Pos(), writes == 0, "the options cloner writes through the caller's pointer")
+	}
 	// the clone is a by-value copy of *param
 	copied := false
 	ast.Inspect(cfd.Body, func(n ast.Node) bool {
@@ -375,7 +438,9 @@ func ruleOptsImmutable(c *Ctx) {
 		}
 		return true
 	})
-	c.ob(rule, c.funcName(cfd)+":copies-by-value", cfd.Pos(), copied, "the clone must be a by-value copy of the caller's struct")
+	if simFacts == nil {
+		c.ob(rule, c.funcName(cfd)+":copies-by-value", cfd.Pos(), copied, "the clone must be a by-value copy of the caller's struct")
+	}
 	retFresh := true
 	ast.Inspect(cfd.Body, func(n ast.Node) bool {
 		rs, ok := n.(*ast.ReturnStmt)
@@ -396,7 +461,9 @@ func ruleOptsImmutable(c *Ctx) {
 		retFresh = false
 		return true
 	})
-	c.ob(rule, c.funcName(cfd)+":returns-fresh", cfd.Pos(), retFresh, "the cloner hands back the caller's own pointer on some path: the loader factory and the transitive resolver then write the pseudo-root / visited-document location into the caller's struct")
+	if simFacts == nil {
+		c.ob(rule, c.funcName(cfd)+":returns-fresh", cfd.Pos(), retFresh, "the cloner hands back the caller's own pointer on some path: the loader factory and the transitive resolver then write the pseudo-root / visited-document location into the caller's struct")
+	}
 	// every function with an *ExpandOptions parameter that is exported (or is the context constructor): parameter only flows to the cloner, a nil test, or another exported function's options parameter
 	// The functions that can see a caller's own pointer: the exported ones, and (transitively) every package
 	// function one of them hands its un-cloned parameter to.
@@ -494,6 +561,33 @@ func ruleOptsImmutable(c *Ctx) {
 						return true
 					}
 					bad = append(bad, "used in "+exprString(par))
+				case *ast.SelectorExpr:
+					// a field of the caller's struct that is only read (not assigned, not address-taken, no method
+					// called on the pointer): nothing becomes visible to the caller
+					if par.X == ast.Expr(id) {
+						if sel := c.Info.Selections[par]; sel != nil && sel.Kind() == types.FieldVal {
+							readOnly := true
+							switch gp := parents[par].(type) {
+							case *ast.AssignStmt:
+								for _, l := range gp.Lhs {
+									if l == ast.Expr(par) {
+										readOnly = false
+									}
+								}
+							case *ast.UnaryExpr:
+								readOnly = gp.Op != token.AND
+							case *ast.IncDecStmt:
+								readOnly = false
+							case *ast.SelectorExpr, *ast.IndexExpr:
+								// something below the field: only a plain value read is accepted
+								readOnly = false
+							}
+							if readOnly {
+								return true
+							}
+						}
+					}
+					bad = append(bad, fmt.Sprintf("used in %T", par))
 				case *ast.KeyValueExpr:
 					// packed into a parameter object of the package: fine if every reader of that field hands it to
 					// the cloner (or nil-tests it) and nobody writes through it
